@@ -261,3 +261,53 @@ Proof.
   intros Hc Hu Hd Hr. unfold free_loc. simpl. rewrite Hc, Hu. simpl. rewrite Hd. simpl. rewrite Hr. simpl.
   eexists. split; [reflexivity|]. simpl. split; [apply lookup_dset|reflexivity].
 Qed.
+
+(* ------------------------------------------------------------------ validity = fits the free capacity (C12) *)
+Theorem cap_level_valid_iff st reqs job l cap rq cur :
+  lv_cap l = Some cap -> lookup (req_key l) reqs = Some rq ->
+  cur = (match lookup (lv_name l) (hwloc st) with Some h => h | None => default_hw end) ->
+  wf cap -> wf cur -> wf rq ->
+  (forall m, In m (mounts cur) -> In m (mounts cap)) -> (forall m, size_at cur m <= size_at cap m) ->
+  (level_valid st reqs job l = Ok true <->
+   cores cur + cores rq <= cores cap /\ mem cur + mem rq <= mem cap /\
+   forall m, In m (mounts rq) -> In m (mounts cap) /\ size_at cur m + size_at rq m <= size_at cap m).
+Proof.
+  intros Hc Hr Hcur Wc Wu Wr Hm Hs. split.
+  - apply cap_level_valid_fits; assumption.
+  - intros (F1 & F2 & F3). unfold level_valid. rewrite Hc, Hr, <- Hcur.
+    destruct (hw_sub_spec cap cur Wc Wu Hm Hs) as (free & Ef & Wf & _ & _ & Fc & Fm & Fs & Fmt).
+    rewrite Ef. simpl.
+    destruct (satisfies_spec free rq Wf Wr) as [S1 _].
+    destruct S1 as (b & Eb & Hb).
+    { intros m Hi. apply Fmt. apply F3. exact Hi. }
+    rewrite Eb. f_equal. apply Hb. split; [lia|]. split; [lia|]. intros m Hi. rewrite Fs. destruct (F3 m Hi). lia.
+Qed.
+
+(* ------------------------------------------------------------------ one wake-up round (C12) *)
+Record waiter := mkwaiter { w_job : string; w_cands : list chain; w_reqs : list (string * hw); w_n : nat;
+                            w_chosen : list string }.
+Definition try_waiter (st : sstate) (w : waiter) : res (sstate * list string * bool) :=
+  attempt st (w_job w) (w_cands w) (w_reqs w) (w_n w) (w_chosen w).
+(* after notify_all every waiter re-evaluates its request once, in some order; returns the granted jobs *)
+Fixpoint wake_round (st : sstate) (ws : list waiter) : res (sstate * list string) :=
+  match ws with
+  | [] => Ok (st, [])
+  | w :: ws' =>
+      r <- try_waiter st w ;;
+      p <- wake_round (fst (fst r)) ws' ;;
+      Ok (fst p, if snd r then w_job w :: snd p else snd p)
+  end.
+
+Theorem wake_round_quiescent ws : forall st st',
+  wake_round st ws = Ok (st', []) ->
+  st' = st /\ forall w, In w ws -> exists vn, try_waiter st w = Ok (st, vn, false).
+Proof.
+  induction ws as [|w ws IH]; simpl; intros st st' H.
+  - inversion H. split; [reflexivity|intros w []].
+  - destruct (try_waiter st w) as [[[s vn] al]|] eqn:Et; simpl in H; [|discriminate].
+    destruct (wake_round s ws) as [[s2 g]|] eqn:Ew; simpl in H; [|discriminate].
+    destruct al; [inversion H|]. inversion H. subst.
+    assert (s = st) by (unfold try_waiter in Et; eapply attempt_fail_unchanged; exact Et). subst s.
+    destruct (IH st st' Ew) as [E1 E2]. subst st'. split; [reflexivity|].
+    intros w0 [Hw|Hw]; [subst; exists vn; exact Et|apply E2; exact Hw].
+Qed.
